@@ -64,6 +64,9 @@ MCSubject(h, i, pbOK, x) ==
   /\ last.a \in {"Open", "PublishRaw", "ReadBack", "Internal", "Subject"} /\ nInt < MaxInt
   /\ IntAnywhere \/ nPub = 0
   /\ PbFeasible(i, pbOK) /\ ((~pbOK \/ i.len = 8) => x = NoEnt)
+  \* stimulus generation (IntAnywhere): entity relations in canonical envelopes only - the complete product is
+  \* replayed from MC_Envelope_sweep.cfg, the simulation is there for the interleaving with publishes
+  /\ IntAnywhere => (x = NoEnt \/ (Canonical(i) /\ i.crcOK))
   /\ DoSubject(h, i, pbOK, x)
   /\ last' = [a |-> "Subject", h |-> h, i |-> i, pbOK |-> pbOK, ent |-> x]
   /\ nInt' = nInt + 1 /\ UNCHANGED nPub
